@@ -138,7 +138,14 @@ def build(s):
         else:
             flat = list(s['v'])
         a = np.array(flat, dtype=s['dtype'] if s['dtype'] != 'str' else None)
-        return a.reshape(s['shape'])
+        a = a.reshape(s['shape'])
+        # same logical content, other memory layouts (orjson serializes only
+        # C-contiguous arrays natively; the others go through a fallback)
+        if s.get('layout') == 'F':
+            a = np.asfortranarray(a)
+        elif s.get('layout') == 'stride' and a.ndim >= 1:
+            a = np.repeat(a, 2, axis=0)[::2]
+        return a
     if t == 'q':
         return build(s['mag']) * unit_of(s['unit'])
     if t == 'unit':
@@ -520,7 +527,8 @@ def arrays(draw):
     flat = draw(st.lists(el, min_size=n, max_size=n))
     if dtype == 'str' and n == 0:
         dtype = 'float64'
-    return {'t': 'arr', 'dtype': dtype, 'shape': shape, 'v': flat}
+    return {'t': 'arr', 'dtype': dtype, 'shape': shape, 'v': flat,
+            'layout': draw(st.sampled_from([None, None, 'F', 'stride']))}
 
 
 @st.composite
